@@ -267,6 +267,8 @@ def r8_reader_rows(ctx):
                 return about_label(e.operand)
             if isinstance(e, ast.Name):
                 vs = assigned_value(fn, e.id)
+                if vs and all(isinstance(v, ast.Call) and call_tail(v) == "split" for v in vs):
+                    return True   # emptiness of the token list: a line without tokens has no label token
                 return bool(vs) and all(about_label(v) for v in vs)
             if isinstance(e, ast.BoolOp):
                 return all(about_label(v) for v in e.values)
